@@ -203,6 +203,29 @@ impl ShardCtx {
 
 thread_local! {
     static LAST_PANIC: RefCell<Option<String>> = RefCell::new(None);
+    static FOCUS: RefCell<String> = RefCell::new(String::new());
+}
+
+/// The property whose check is running on this thread. Interpreters that carry the oracles of
+/// several properties evaluate all of them at a step and prefer the focus property's violation.
+pub fn set_focus(prop: &str) {
+    FOCUS.with(|f| *f.borrow_mut() = prop.to_string());
+}
+
+pub fn focus() -> String {
+    FOCUS.with(|f| f.borrow().clone())
+}
+
+/// Picks the violation to report out of all oracle failures of one step.
+pub fn pick_violation(mut all: Vec<Violation>) -> Verdict {
+    if all.is_empty() {
+        return Ok(());
+    }
+    let f = focus();
+    if let Some(i) = all.iter().position(|v| v.prop == f) {
+        return Err(all.swap_remove(i));
+    }
+    Err(all.swap_remove(0))
 }
 
 /// Quiet panic hook that remembers the message (per thread).
@@ -427,6 +450,7 @@ pub fn worker_main(p: &Property, args: &[String]) -> i32 {
     let inflight = PathBuf::from(&args[6]);
     let sub = p.subs.iter().find(|s| s.name == sub_name).expect("sub-check");
     install_panic_hook();
+    set_focus(p.id);
     let ctx = ShardCtx {
         prop: p.id,
         tier,
@@ -443,6 +467,7 @@ pub fn worker_main(p: &Property, args: &[String]) -> i32 {
 
 pub fn replay_main(p: &Property, file: &str) -> i32 {
     install_panic_hook();
+    set_focus(p.id);
     let text = match std::fs::read_to_string(file) {
         Ok(t) => t,
         Err(e) => {
